@@ -385,18 +385,18 @@ Print Assumptions C16_general_nonvacuous.
 (* ==== the premise `wf` / `ref_ok` against the CONSTRUCTORS: construct_planar / construct_volumetric are the argument
    checks of the two ROI template classes on objects built by make_obj (ReferencedSegment / VolumeSurface argument
    checks included); cp_spec / cv_spec = objects first, then the group (what run_construct_* observe).  Every accepted
-   planar construction yields a reference ref_ok describes; every accepted volumetric one too, or an UNDOCUMENTED one
-   (empty source image list, empty volume surface); every reference ref_ok describes is constructible (a region in
-   space apart); a documented construction yields a record the theorems speak about. ==== *)
+   construction yields a reference ref_ok describes; every reference ref_ok describes is constructible (a region in
+   space apart); so every group the template classes build is a record the theorems speak about and reports the
+   reference it was constructed with (full since fix D107; the three former counterexamples are refused). ==== *)
 Theorem C16_construct_planar_sound : forall region segment r,
   construct_planar region segment = Ok r -> ref_ok Planar r = true.
 Proof. exact construct_planar_sound. Qed.
 Print Assumptions C16_construct_planar_sound.
 
-Theorem C16_construct_volumetric_sound_partial : forall regions surface segment r,
-  construct_volumetric regions surface segment = Ok r -> ref_ok Volumetric r = true \/ undocumented r = true.
-Proof. exact construct_volumetric_sound_partial. Qed.
-Print Assumptions C16_construct_volumetric_sound_partial.
+Theorem C16_construct_volumetric_sound : forall regions surface segment r,
+  cv_spec regions surface segment = Ok (Ok r) -> ref_ok Volumetric r = true.
+Proof. exact construct_volumetric_sound. Qed.
+Print Assumptions C16_construct_volumetric_sound.
 
 Theorem C16_construct_complete : forall k r, ref_ok k r = true -> constructible r ->
   match k with
@@ -407,25 +407,37 @@ Theorem C16_construct_complete : forall k r, ref_ok k r = true -> constructible 
 Proof. exact construct_complete. Qed.
 Print Assumptions C16_construct_complete.
 
-Theorem C16_constructed_group_good_partial : forall k r,
+Theorem C16_constructed_group_good : forall k r,
   match k with
-  | Planar => exists region segment, construct_planar region segment = Ok r
-  | Volumetric => exists regions surface segment, construct_volumetric regions surface segment = Ok r
+  | Planar => exists region segment, cp_spec region segment = Ok (Ok r)
+  | Volumetric => exists regions surface segment, cv_spec regions surface segment = Ok (Ok r)
   | ImageK => False
-  end ->
-  undocumented r = false -> good (bare_group k r).
-Proof. exact constructed_group_good_partial. Qed.
-Print Assumptions C16_constructed_group_good_partial.
+  end -> good (bare_group k r).
+Proof. exact constructed_group_good. Qed.
+Print Assumptions C16_constructed_group_good.
 
-(* the full clause "a group the constructor accepts reports the reference it was constructed with" is FALSE of the
-   code as it is (real defect, replayed on /repo): an empty source image list / an empty graphic data list is accepted
-   and the group then raises RuntimeError in referenced_segment / roi / reference_type *)
-Theorem C16_constructed_reference_reported_refuted :
-  (exists r, cv_spec None None (Some (SpSegment 3 11 (SrcArg (Some []) None))) = Ok (Ok r) /\
-             acc_segment (build (bare_group Volumetric r)) = Err "RuntimeError"%string) /\
-  (exists r, cv_spec None (Some (SpSurface 6 1 (SrcArg (Some []) None))) None = Ok (Ok r) /\
-             acc_vol_roi (build (bare_group Volumetric r)) = Err "RuntimeError"%string) /\
-  (exists r, cv_spec None (Some (SpSurface 1 0 (SrcArg None (Some 2)))) None = Ok (Ok r) /\
-             acc_reference_type allowed_volumetric (build (bare_group Volumetric r)) = Err "RuntimeError"%string).
-Proof. exact constructed_reference_reported_refuted. Qed.
-Print Assumptions C16_constructed_reference_reported_refuted.
+(* a group the constructors accept reports the reference it was constructed with (false before fix D107) *)
+Theorem C16_constructed_reference_reported : forall regions surface segment r,
+  cv_spec regions surface segment = Ok (Ok r) ->
+  acc_reference_type allowed_volumetric (build (bare_group Volumetric r)) = Ok (ref_code r) /\
+  acc_vol_roi (build (bare_group Volumetric r)) = Ok (vol_roi_of r) /\
+  acc_segment (build (bare_group Volumetric r)) = Ok (segment_of r).
+Proof. exact constructed_reference_reported. Qed.
+Print Assumptions C16_constructed_reference_reported.
+
+Theorem C16_constructed_reference_reported_planar : forall region segment r,
+  cp_spec region segment = Ok (Ok r) ->
+  acc_reference_type allowed_planar (build (bare_group Planar r)) = Ok (ref_code r) /\
+  acc_planar_roi (build (bare_group Planar r)) = planar_roi_of r /\
+  acc_segframe (build (bare_group Planar r)) = Ok (segframe_of r).
+Proof. exact constructed_reference_reported_planar. Qed.
+Print Assumptions C16_constructed_reference_reported_planar.
+
+Example C16_former_counterexamples_refused :
+  cv_spec None None (Some (SpSegment 3 11 (SrcArg (Some []) None))) = Err "ValueError"%string /\
+  cv_spec None (Some (SpSurface 6 1 (SrcArg (Some []) None))) None = Err "ValueError"%string /\
+  cv_spec None (Some (SpSurface 1 0 (SrcArg None (Some 2)))) None = Err "ValueError"%string /\
+  cv_spec None None (Some (SpSegment 3 11 (SrcArg (Some []) (Some 2)))) = Err "ValueError"%string /\
+  (exists r, cv_spec None None (Some (SpSegment 3 11 (SrcArg (Some [(0, 3)]) None))) = Ok (Ok r)).
+Proof. exact former_counterexamples_refused. Qed.
+Print Assumptions C16_former_counterexamples_refused.
